@@ -151,9 +151,9 @@ Fixpoint guard_C17_zero_factor (s : src) : bool :=
 (* repetition-entry-state: the ghost flag of the translator model *)
 Definition guard_C17_repetition_entry_state (s : src) : bool := rep_stable_src s.
 
-(* Full statement (OPEN: not proved; the correspondence check tests it on every generated case):
-   under the guards, whenever the pipeline produces a history it is the staircase of the source and the total
-   duration agrees.  (dep-key-shared-across-depths makes the pipeline return Err EAssert and is excluded by `= Ok`.) *)
+(* Statement of round 1.  REFUTED in round 2 (Props.v C17_staircase_statement_refuted_...): its two guards do not exclude
+   dependency-key collisions by rounding and coefficients of non-enclosing loops.  The corrected statement (guards
+   guard_C17_zero_factor_depth, guard_C17_key_collision in SimDefs.v, same ghost flag) is PROVED as Props.v C17_staircase. *)
 Definition C17_staircase_statement : Prop :=
   forall channels s fuel h t,
     src_wf channels s = true -> guard_C17_zero_factor s = true -> guard_C17_repetition_entry_state s = true ->
